@@ -314,6 +314,51 @@ func (g *progGen) rule(allowInvalid bool, exprMode int) Rule {
 	return rule
 }
 
+// graphProgram: programs whose joins fire and recurse — edges over a few nodes, transitive
+// closure in left- or right-recursive form, mutual recursion, a self-join with a repeated
+// variable, constants in rule bodies, an arity-0 predicate.
+func graphProgram(r *Rng) runCase {
+	var rc runCase
+	nodes := 2 + r.Intn(4)
+	node := func() Term {
+		if r.Chance(1, 5) {
+			return S(fmt.Sprintf("n%d", r.Intn(nodes)))
+		}
+		return I(int64(r.Intn(nodes)))
+	}
+	for i, n := 0, 1+r.Intn(8); i < n; i++ {
+		rc.Facts = append(rc.Facts, Pred{Name: "e", Terms: []Term{node(), node()}})
+	}
+	if r.Chance(1, 2) {
+		rc.Facts = append(rc.Facts, Pred{Name: "start", Terms: []Term{node()}})
+	}
+	if r.Chance(1, 3) {
+		rc.Facts = append(rc.Facts, Pred{Name: "flag"})
+	}
+	x, y, z := V("x"), V("y"), V("z")
+	rules := []Rule{
+		{Head: Pred{Name: "path", Terms: []Term{x, y}}, Body: []Pred{{Name: "e", Terms: []Term{x, y}}}},
+		{Head: Pred{Name: "path", Terms: []Term{x, z}}, Body: []Pred{{Name: "path", Terms: []Term{x, y}}, {Name: "e", Terms: []Term{y, z}}}},
+		{Head: Pred{Name: "path", Terms: []Term{x, z}}, Body: []Pred{{Name: "e", Terms: []Term{x, y}}, {Name: "path", Terms: []Term{y, z}}}},
+		{Head: Pred{Name: "path", Terms: []Term{x, z}}, Body: []Pred{{Name: "path", Terms: []Term{x, y}}, {Name: "path", Terms: []Term{y, z}}}},
+		{Head: Pred{Name: "loop", Terms: []Term{x}}, Body: []Pred{{Name: "path", Terms: []Term{x, x}}}},
+		{Head: Pred{Name: "reach", Terms: []Term{y}}, Body: []Pred{{Name: "start", Terms: []Term{x}}, {Name: "path", Terms: []Term{x, y}}}},
+		{Head: Pred{Name: "a", Terms: []Term{x}}, Body: []Pred{{Name: "b", Terms: []Term{x}}}},
+		{Head: Pred{Name: "b", Terms: []Term{y}}, Body: []Pred{{Name: "a", Terms: []Term{x}}, {Name: "e", Terms: []Term{x, y}}}},
+		{Head: Pred{Name: "a", Terms: []Term{x}}, Body: []Pred{{Name: "start", Terms: []Term{x}}}},
+		{Head: Pred{Name: "tri", Terms: []Term{x, y, z}}, Body: []Pred{{Name: "e", Terms: []Term{x, y}}, {Name: "e", Terms: []Term{y, z}}, {Name: "e", Terms: []Term{z, x}}}},
+		{Head: Pred{Name: "from0", Terms: []Term{y}}, Body: []Pred{{Name: "e", Terms: []Term{I(0), y}}}},
+		{Head: Pred{Name: "flagged", Terms: []Term{x}}, Body: []Pred{{Name: "flag"}, {Name: "start", Terms: []Term{x}}}},
+		{Head: Pred{Name: "sym", Terms: []Term{x, y}}, Body: []Pred{{Name: "e", Terms: []Term{x, y}}, {Name: "e", Terms: []Term{y, x}}}},
+		{Head: Pred{Name: "big", Terms: []Term{x, y}}, Body: []Pred{{Name: "path", Terms: []Term{x, y}}}, Exprs: []Expr{{{K: 'v', T: x}, {K: 'v', T: y}, {K: 'b', B: "lt"}}}},
+	}
+	for _, i := range r.Perm(len(rules))[:1+r.Intn(5)] {
+		rc.Rules = append(rc.Rules, rules[i])
+	}
+	rc.MaxFacts, rc.MaxIter = 1000, 100
+	return rc
+}
+
 // ---------- independent reference: naive bottom-up over expression-free programs ----------
 
 func refUnify(p Pred, f Pred, env map[string]string) (map[string]string, bool) {
@@ -433,19 +478,26 @@ func runC05(c *Ctx) {
 	for i := 0; i < n; i++ {
 		g := newProgGen(r)
 		var rc runCase
-		nf := r.Intn(11)
-		for j := 0; j < nf; j++ {
-			rc.Facts = append(rc.Facts, g.fact())
-		}
 		exprMode := r.Intn(3) // 0 none, 1 error-free, 2 any
-		nr := r.Intn(4)
-		if r.Chance(1, 10) {
-			nr = 5
+		if r.Chance(1, 2) {
+			rc = graphProgram(r)
+			exprMode = 2
+			c.Count("shape:graph")
+		} else {
+			nf := r.Intn(11)
+			for j := 0; j < nf; j++ {
+				rc.Facts = append(rc.Facts, g.fact())
+			}
+			nr := r.Intn(4)
+			if r.Chance(1, 10) {
+				nr = 5
+			}
+			for j := 0; j < nr; j++ {
+				rc.Rules = append(rc.Rules, g.rule(r.Chance(1, 6), exprMode))
+			}
+			rc.MaxFacts, rc.MaxIter = 1000, 100
+			c.Count("shape:random")
 		}
-		for j := 0; j < nr; j++ {
-			rc.Rules = append(rc.Rules, g.rule(r.Chance(1, 6), exprMode))
-		}
-		rc.MaxFacts, rc.MaxIter = 1000, 100
 		sx := runCaseSx(rc, "(rx)")
 		res := execCase("RUN", sx)
 		if res == "environment-timeout" {
@@ -467,6 +519,9 @@ func runC05(c *Ctx) {
 				multi = true
 			}
 		}
+		if cls == "ok" && derived >= 5 {
+			c.Count("run:derived>=5")
+		}
 		if cls == "ok" && derived > 0 {
 			c.Count("run:derived>0")
 			if multi {
@@ -477,7 +532,7 @@ func runC05(c *Ctx) {
 			c.Sample(map[string]string{"stream": "run", "case": sx, "go": res})
 		}
 		// independent reference on expression-free programs
-		if exprMode == 0 && !hasExprs(rc.Rules) {
+		if !hasExprs(rc.Rules) {
 			ref, valid := refLeastModel(rc.Facts, rc.Rules)
 			c.Count("ref-checked")
 			switch {
